@@ -271,8 +271,7 @@ func (sk *SpaceKeeper) PlotWS(sid string) error {
 	// registered -> ready
 	// TODO: check for existence in plotterQueue
 	if ws, ok := sk.workSpaceIndex[engine.Registered].Get(sid); ok {
-		sk.newQueuedWorkSpaceCh <- newQueuedWorkSpace(ws, false)
-		return nil
+		return sk.enqueueWorkSpace(newQueuedWorkSpace(ws, false))
 	}
 
 	// plotting -> ready
@@ -289,6 +288,18 @@ func (sk *SpaceKeeper) PlotWS(sid string) error {
 	// ready -> ready
 	// mining -> mining
 	return nil
+}
+
+// enqueueWorkSpace hands a request over to the plotter. It is called with the state lock
+// held and must not block: the plotter needs that lock to make progress, so a blocking send
+// on a full channel would deadlock the keeper.
+func (sk *SpaceKeeper) enqueueWorkSpace(qws *queuedWorkSpace) error {
+	select {
+	case sk.newQueuedWorkSpaceCh <- qws:
+		return nil
+	default:
+		return ErrPlotterQueueIsFull
+	}
 }
 
 // MineWS should make workSpace state conversion happen like:
@@ -310,8 +321,7 @@ func (sk *SpaceKeeper) MineWS(sid string) error {
 	// registered -> plotting -> mining
 	// TODO: check for existence in plotterQueue
 	if ws, ok := sk.workSpaceIndex[engine.Registered].Get(sid); ok {
-		sk.newQueuedWorkSpaceCh <- newQueuedWorkSpace(ws, true)
-		return nil
+		return sk.enqueueWorkSpace(newQueuedWorkSpace(ws, true))
 	}
 
 	// plotting -> mining
